@@ -161,8 +161,11 @@ class ReaderStream:
                 # the malformed stream
                 stream += rng.choice([b"\xf0\x00", b"\x00\x02\x10\x00", b"\x00", b"\x40\x01\x00", b"\x30\x01\x00", b"\x20\x81\x81\x81\x81\x81\x01", DecodeStream().rand_packet(rng, proto)])
         if stream or rng.random() < 0.5:
-            items = chunk(rng, stream)
             x = rng.random()
+            if x < 0.25 and stream and rng.random() < 0.5:
+                # the connection ends in the middle of a packet: inside the remaining-length field or the body
+                stream = stream[:rng.randrange(1, len(stream) + 1)]
+            items = chunk(rng, stream)
             if x < 0.15:
                 items.append("eof")
             elif x < 0.25:
